@@ -67,6 +67,9 @@ func (p *c03ref) atom() string {
 	case tkLP:
 		inner := p.expr(1)
 		p.pos++ // RP
+		if t.text == "-" {
+			return "(-1 * [" + inner + "])"
+		}
 		return "[" + inner + "]"
 	}
 	panic("harness: bad token in reference grouper")
@@ -118,7 +121,7 @@ func renderC03(toks []c03tok, compact bool) string {
 		case tkRegex:
 			b.WriteString("/" + t.text + "/")
 		case tkLP:
-			b.WriteString("(")
+			b.WriteString(t.text + "(")
 		case tkRP:
 			b.WriteString(")")
 		case tkOp:
@@ -135,13 +138,31 @@ func renderC03(toks []c03tok, compact bool) string {
 	return b.String()
 }
 
-// neutralise wraps every negated operand in explicit parentheses.
+// neutralise wraps every negated operand (variable or group) in explicit
+// parentheses.
 func neutraliseC03(toks []c03tok) []c03tok {
 	var out []c03tok
+	var stack []bool // for every open paren: does its close need an extra ")"
 	for _, t := range toks {
-		if t.kind == tkNegVar {
+		switch {
+		case t.kind == tkNegVar:
 			out = append(out, c03tok{kind: tkLP}, t, c03tok{kind: tkRP})
-		} else {
+		case t.kind == tkLP:
+			neg := t.text == "-"
+			if neg {
+				out = append(out, c03tok{kind: tkLP})
+			}
+			out = append(out, t)
+			stack = append(stack, neg)
+		case t.kind == tkRP:
+			out = append(out, t)
+			if n := len(stack); n > 0 {
+				if stack[n-1] {
+					out = append(out, c03tok{kind: tkRP})
+				}
+				stack = stack[:n-1]
+			}
+		default:
 			out = append(out, t)
 		}
 	}
@@ -150,7 +171,7 @@ func neutraliseC03(toks []c03tok) []c03tok {
 
 func hasNeg(toks []c03tok) bool {
 	for _, t := range toks {
-		if t.kind == tkNegVar {
+		if t.kind == tkNegVar || (t.kind == tkLP && t.text == "-") {
 			return true
 		}
 	}
@@ -160,12 +181,21 @@ func hasNeg(toks []c03tok) bool {
 // buildChain makes operands/ops tokens for the op index list, with optional
 // paren ranges over operand indexes and negated operand positions.
 func buildChain(ops []int, parens [][2]int, neg map[int]bool) []c03tok {
+	return buildChainNP(ops, parens, neg, nil)
+}
+
+// buildChainNP additionally negates the parenthesised ranges whose index is in negParen.
+func buildChainNP(ops []int, parens [][2]int, neg map[int]bool, negParen map[int]bool) []c03tok {
 	var toks []c03tok
 	n := len(ops) + 1
 	for i := 0; i < n; i++ {
-		for _, pr := range parens {
+		for pi, pr := range parens {
 			if pr[0] == i {
-				toks = append(toks, c03tok{kind: tkLP})
+				t := c03tok{kind: tkLP}
+				if negParen[pi] && !(i > 0 && c03ops[ops[i-1]].regex) {
+					t.text = "-"
+				}
+				toks = append(toks, t)
 			}
 		}
 		isRegex := i > 0 && c03ops[ops[i-1]].regex
@@ -258,8 +288,8 @@ func init() { Registry["C03"] = checkC03 }
 
 func checkC03(c *Ctx) (string, bool, []string) {
 	r := c.R
-	rule := "all chains of k operators over the 19 operator spellings for k<=3 (k<=4 in thorough), compact and spaced; all placements of one or two parenthesised sub-chains for k<=3 with one operator per level; negated operand at each position for k<=2; random chains k=5..12 with parentheses and negations. Each case: ParseExpr shape vs reference grouper, then String()+ParseExpr shape. Non-trivial = k>=2 (grouping is observable); distinct by rendered text."
-	assume := []string{"the five precedence levels and left associativity as written in the property statement", "a negated operand -x denotes the node (-1 * x) treated as an atom"}
+	rule := "all chains of k operators over the 19 operator spellings for k<=3 (k<=4 in thorough), compact and spaced; all placements of one or two parenthesised sub-chains for k<=3 with one operator per level; negated operand at each position for k<=2; negated parenthesised groups; random chains k=5..12 with parentheses and negations. Each case: ParseExpr shape vs reference grouper, then String()+ParseExpr shape. Non-trivial = k>=2 (grouping is observable); distinct by rendered text."
+	assume := []string{"the five precedence levels and left associativity as written in the property statement", "a negated operand -x or -( … ) denotes the node (-1 * x) treated as an atom"}
 
 	if c.Replay != nil {
 		// replay re-parses the recorded text against its recorded expectation
@@ -338,6 +368,10 @@ func checkC03(c *Ctx) (string, bool, []string) {
 			for _, ps := range sets {
 				if parensValid(ops, ps) {
 					jobs = append(jobs, job{buildChain(ops, closeOrder(ps), nil), false})
+					// the same placement with the first group negated: -( … )
+					if ps[0][0] == 0 || !c03ops[ops[ps[0][0]-1]].regex {
+						jobs = append(jobs, job{buildChainNP(ops, closeOrder(ps), nil, map[int]bool{0: true}), false})
+					}
 				}
 			}
 			i := k - 1
@@ -439,7 +473,14 @@ func checkC03(c *Ctx) (string, bool, []string) {
 				neg[pos] = true
 			}
 		}
-		toks := buildChain(ops, closeOrder(parens), neg)
+		np := map[int]bool{}
+		for pi := range parens {
+			if rg.P(0.25) {
+				np[pi] = true
+				local["negated-groups"]++
+			}
+		}
+		toks := buildChainNP(ops, closeOrder(parens), neg, np)
 		c03One(c, toks, false, local)
 		local["random-chains"]++
 		r.DistinctStr(renderC03(toks, false))
@@ -477,12 +518,14 @@ func closeOrder(ps [][2]int) [][2]int {
 
 // lexC03 reads back a spaced rendering (replay only).
 func lexC03(s string) ([]c03tok, bool) {
-	s = strings.NewReplacer("(", " ( ", ")", " ) ").Replace(s)
+	s = strings.NewReplacer("-(", " -( ", "(", " ( ", ")", " ) ").Replace(s)
 	var toks []c03tok
 	for _, f := range strings.Fields(s) {
 		switch {
 		case f == "(":
 			toks = append(toks, c03tok{kind: tkLP})
+		case f == "-(" || f == "-":
+			toks = append(toks, c03tok{kind: tkLP, text: "-"})
 		case f == ")":
 			toks = append(toks, c03tok{kind: tkRP})
 		case strings.HasPrefix(f, "/") && strings.HasSuffix(f, "/") && len(f) > 2:
